@@ -369,8 +369,15 @@ pub fn model(case: &Case) -> Model {
                 allowed.push(vec![0]);
             }
             Role::Copy { .. } => {
-                if st.body == Body::SubstCat && lines.is_empty() && !endless_input {
-                    lines = vec![String::new()];
+                if st.body == Body::SubstCat && !endless_input {
+                    // `echo "$(…)"`: the substitution drops every trailing newline, echo adds one
+                    while lines.last().is_some_and(|l| l.is_empty()) {
+                        lines.pop();
+                    }
+                    if lines.is_empty() {
+                        lines = vec![String::new()];
+                    }
+                    raw_tail = false;
                 }
                 allowed.push(vec![0]);
             }
